@@ -438,6 +438,7 @@ func (f *STFS) OpenFile(name string, flag int, perm os.FileMode) (afero.File, er
 		}
 	}
 
+	created := false
 	hdr, err := inventory.Stat(
 		f.metadata,
 
@@ -458,7 +459,7 @@ func (f *STFS) OpenFile(name string, flag int, perm os.FileMode) (afero.File, er
 			)
 
 			createFile := func() error {
-				if !f.readOnly && flag&os.O_CREATE != 0 && flag&os.O_EXCL == 0 {
+				if !f.readOnly && flag&os.O_CREATE != 0 {
 					if err := f.statParentDirectory(name); err != nil {
 						return err
 					}
@@ -479,6 +480,7 @@ func (f *STFS) OpenFile(name string, flag int, perm os.FileMode) (afero.File, er
 					if err := f.mknodeWithoutLocking(false, name, perm, false, "", false); err != nil {
 						return err
 					}
+					created = true
 
 					hdr, err = inventory.Stat(
 						f.metadata,
@@ -548,6 +550,11 @@ func (f *STFS) OpenFile(name string, flag int, perm os.FileMode) (afero.File, er
 		} else {
 			return nil, err
 		}
+	}
+
+	// Exclusive creation must not open something that was there before
+	if !created && flag&os.O_CREATE != 0 && flag&os.O_EXCL != 0 {
+		return nil, os.ErrExist
 	}
 
 	// Prevent opening a directory as writable
